@@ -418,21 +418,73 @@ func returnKind(r *ssa.Return) RetKind {
 	if idx >= len(r.Results) {
 		return RetMaybe
 	}
-	v := r.Results[idx]
+	return errKindAt(r.Results[idx], r.Block(), 0)
+}
+
+// errKindAt classifies error value v as seen from block at.
+func errKindAt(v ssa.Value, at *ssa.BasicBlock, depth int) RetKind {
 	k := classifyErrValue(v, map[ssa.Value]bool{})
-	if k == RetMaybe {
-		// refined: return sits in a block dominated by the non-nil edge of a test of v
-		nn, isn := nilTests(v)
-		for _, b := range nn {
-			if len(b.Block().Preds) == 1 && b.Block().Dominates(r.Block()) {
-				return RetError
+	if k != RetMaybe || depth > 3 {
+		return k
+	}
+	// wrapping helpers keep nil-ness of their first argument
+	if c, ok := v.(*ssa.Call); ok {
+		n, _ := callName(c.Common())
+		switch n {
+		case "github.com/pkg/errors.Wrap", "github.com/pkg/errors.Wrapf", "github.com/pkg/errors.WithStack", "github.com/pkg/errors.WithMessage":
+			if len(c.Common().Args) > 0 {
+				return errKindAt(c.Common().Args[0], at, depth+1)
 			}
 		}
-		for _, b := range isn {
-			if len(b.Block().Preds) == 1 && b.Block().Dominates(r.Block()) {
+	}
+	nn, isn := nilTests(v)
+	for _, b := range nn {
+		if len(b.Block().Preds) == 1 && b.Block().Dominates(at) {
+			return RetError
+		}
+	}
+	for _, b := range isn {
+		if len(b.Block().Preds) == 1 && b.Block().Dominates(at) {
+			return RetSuccess
+		}
+	}
+	// compared equal to a sentinel on a dominating edge (err == ErrNotFound → return …)
+	for _, r := range *v.Referrers() {
+		bo, ok := r.(*ssa.BinOp)
+		if !ok || bo.Op != token.EQL {
+			continue
+		}
+		other := bo.Y
+		if other == v {
+			other = bo.X
+		}
+		if u, ok := other.(*ssa.UnOp); ok {
+			if _, isG := u.X.(*ssa.Global); isG {
+				for _, cu := range condUsers(bo) {
+					e := 0
+					if cu.Neg {
+						e = 1
+					}
+					sb := cu.If.Block().Succs[e]
+					if len(sb.Preds) == 1 && sb.Dominates(at) {
+						return RetError
+					}
+				}
+			}
+		}
+	}
+	if phi, ok := v.(*ssa.Phi); ok {
+		res := RetError
+		for i, e := range phi.Edges {
+			ek := errKindAt(e, phi.Block().Preds[i], depth+1)
+			if ek == RetSuccess {
 				return RetSuccess
 			}
+			if ek == RetMaybe {
+				res = RetMaybe
+			}
 		}
+		return res
 	}
 	return k
 }
@@ -457,6 +509,13 @@ func Returns(f *ssa.Function) []*ssa.Return {
 // target returns true, without executing an instruction for which stop returns true.
 // It returns the witness as a list of blocks.
 func pathAvoiding(f *ssa.Function, from ssa.Instruction, target func(ssa.Instruction) bool, stop func(ssa.Instruction) bool) (bool, []*ssa.BasicBlock, ssa.Instruction) {
+	return pathSearch(f, from, nil, target, stop, false)
+}
+
+// pathSearch generalises pathAvoiding: the search starts after instruction from, or at the
+// top of block fromBlock, or at function entry; with cutBack, loop back edges (edges to a
+// dominating block) are not followed, i.e. the search stays within one loop iteration.
+func pathSearch(f *ssa.Function, from ssa.Instruction, fromBlock *ssa.BasicBlock, target func(ssa.Instruction) bool, stop func(ssa.Instruction) bool, cutBack bool) (bool, []*ssa.BasicBlock, ssa.Instruction) {
 	if len(f.Blocks) == 0 {
 		return false, nil, nil
 	}
@@ -467,6 +526,8 @@ func pathAvoiding(f *ssa.Function, from ssa.Instruction, target func(ssa.Instruc
 	start := st{f.Blocks[0], 0}
 	if from != nil {
 		start = st{from.Block(), idxOf(from) + 1}
+	} else if fromBlock != nil {
+		start = st{fromBlock, 0}
 	}
 	prev := map[*ssa.BasicBlock]*ssa.BasicBlock{}
 	visited := map[*ssa.BasicBlock]bool{}
@@ -506,6 +567,9 @@ func pathAvoiding(f *ssa.Function, from ssa.Instruction, target func(ssa.Instruc
 			continue
 		}
 		for _, nb := range s.b.Succs {
+			if cutBack && nb.Dominates(s.b) {
+				continue
+			}
 			if !visited[nb] {
 				if _, ok := prev[nb]; !ok {
 					prev[nb] = s.b
